@@ -322,6 +322,35 @@ func (c *Ctx) ruleC12(m *scanfsm.Machine) {
 		}
 	}
 	c.checkPairs(m)
+	if c.R.Tier == "thorough" {
+		c.ruleC12Grammar(m)
+	}
+}
+
+// ruleC12Grammar (thorough): the lexemes of one directive follow Keyword Parameter* Annotation? ... Body? as far as the
+// scanner is concerned: parameters only directly after the keyword or another parameter, at most one annotation and only
+// before parenthesis/body, at most one body. Where '(' may stand is decided by the core, not by the scanner
+// (C11-CLOSE "single open"): ContextOpen findings are observations.
+func (c *Ctx) ruleC12Grammar(m *scanfsm.Machine) {
+	r := c.R
+	r.Rule("C12-GRAMMAR", "explored with the phase of the current directive in every configuration: a Parameter lexeme only follows the Keyword or a Parameter; an Annotation only follows the Keyword or a Parameter (so at most one); a body (Schema/Text/Enum) follows a Keyword/Parameter/Annotation/ContextOpen and occurs at most once per directive", 1)
+	a := m.AnalyseGrammar(stackK)
+	n := 0
+	for _, f := range a.Findings {
+		if f.Kind != "grammar" {
+			continue
+		}
+		if strings.HasPrefix(f.Key, "ContextOpen") {
+			r.Observe("C12-GRAMMAR", f.Key, "the scanner emits an opening parenthesis here; the core decides whether it is legal (a second one for the same directive is refused: C11-CLOSE single open)", c.P.Pos(m.Pos[f.State]))
+			continue
+		}
+		n++
+		r.Bad("C12-GRAMMAR", f.Key, f.Text+"; byte trace: "+f.Trace, c.P.Pos(m.Pos[f.State]))
+	}
+	if n == 0 {
+		r.Ok("C12-GRAMMAR", "all reachable configurations", fmt.Sprintf("no Parameter/Annotation/Body out of order in %d configurations", a.Configs), "")
+	}
+	r.Stats["c12_grammar_configs"] = a.Configs
 }
 
 // checkPairs reads the accepted (start,end) pairs from processLexemeEvent.
